@@ -204,10 +204,25 @@ def genOuterCfg : Gen (Ast × List String) := do
 def fuel : Nat := 400
 
 structure Prog where
-  mode : String                      -- direct | evaluator | outside
-  cfg : Ast                          -- evaluator/outside: the configuration (evaluated at top level)
+  mode : String                      -- direct | evaluator | outside | dyn
+  cfg : Ast                          -- evaluator/outside/dyn: the configuration (evaluated at top level)
   src : Ast                          -- the sandboxed source
   lib : Ast                          -- content of lib.arrai
+  dv : Ast                           -- dyn: what the caller binds the dynamic variable @{x} to
+
+def dynName : String := "@{x}"
+
+/-- the source mentions the dynamic variable (at any quotation depth) -/
+def mentionsDyn : Ast → Bool
+  | .var x => x == dynName
+  | .quote a => mentionsDyn a
+  | .lam _ b => mentionsDyn b
+  | .app f a => mentionsDyn f || mentionsDyn a
+  | .letE _ v b => mentionsDyn v || mentionsDyn b
+  | .tcons _ v r => mentionsDyn v || mentionsDyn r
+  | .dot e _ => mentionsDyn e
+  | .mac f => mentionsDyn f
+  | _ => false
 
 def fsOf (p : Prog) : List (String × File) := [("lib.arrai", .code p.lib), ("canary.txt", .bytes)]
 
@@ -216,10 +231,11 @@ def Prog.program (p : Prog) : Ast :=
   match p.mode with
   | "direct" => p.src
   | "evaluator" => evaluator p.cfg p.src
+  | "dyn" => .app (.lam dynName (evaluator p.cfg p.src)) p.dv -- the caller binds @{x} around the sandbox
   | _ => .app (evaluator p.cfg p.src) (.str "canary.txt")     -- the sandbox's result is called outside
 
-def Prog.eval (p : Prog) : Res × List String × Bool :=
-  let W := world (fsOf p)
+def Prog.eval (p : Prog) (spec : Bool) : Res × List String × Bool :=
+  let W := if spec then specWorld (fsOf p) else world (fsOf p)
   match p.mode with
   | "direct" =>
     (Impl.evalWithScope W fuel Impl.ctx0 p.src (.cons "//" W.safe .nil), W.safe.names, false)
@@ -232,16 +248,21 @@ def Prog.eval (p : Prog) : Res × List String × Bool :=
       | _ => []
     (Impl.evalWithScope W fuel Impl.ctx0 p.program .nil, allowed, true)
 
+/-- `model`: the transliteration of the tree; `spec`: the same evaluator with the sandbox boundary closed to
+dynamic variables too, and `confined=yes` demanded.  Class: `KF-dynvar-leak` exactly when the caller binds
+a dynamic variable that the sandboxed source mentions. -/
 def mkCase (id stratum : String) (p : Prog) : Case × Bool :=
-  let (r, allowed, strict) := p.eval
+  let (r, allowed, strict) := p.eval false
   let (o, confined) := obs allowed strict r
-  let isOk := r.1.isSome
-  let model := if isOk then o ++ "|confined=" ++ (if confined then "yes" else "no") else o
-  let spec := if isOk then o ++ "|confined=yes" else o
-  ({ id := id, cls := "good", kind := "c18", stratum := stratum ++ (if isOk then "/ok" else "/fail"),
+  let model := if r.1.isSome then o ++ "|confined=" ++ (if confined then "yes" else "no") else o
+  let (rs, allowedS, _) := p.eval true
+  let (os, _) := obs allowedS strict rs
+  let spec := if rs.1.isSome then os ++ "|confined=yes" else os
+  let cls := if p.mode == "dyn" && mentionsDyn p.src then "KF-dynvar-leak" else "good"
+  ({ id := id, cls := cls, kind := "c18", stratum := stratum ++ (if rs.1.isSome then "/ok" else "/fail"),
      model := model, spec := spec,
      payload := [p.mode, p.cfg.render, p.program.render, "lib.arrai", p.lib.render, "canary.txt", "SECRET"] },
-   isBad r.2)
+   isBad r.2 || isBad rs.2)
 
 /-- lib.arrai must not import itself: an import cycle hangs the importer (C16's finding, not ours) -/
 def noSelfImport : Ast → Ast
@@ -266,16 +287,25 @@ def genLib : Gen Ast := do
 def genProg (big : Bool) : Gen Prog := do
   let depth ← pick (if big then [2, 3, 3, 4] else [2, 2, 3])
   let lib ← genLib
-  let m ← rand 10
+  let m ← rand 11
   if m < 3 then
-    pure ⟨"direct", .tnil, ← genExpr depth [], lib⟩
+    pure ⟨"direct", .tnil, ← genExpr depth [], lib, .tnil⟩
+  else if m == 10 then
+    -- the caller binds a dynamic variable around the sandbox; the sandboxed source tries to use it
+    let (cfg, names) ← genOuterCfg
+    let dv ← pick [osFile, osFile, .num 1, path ["str", "upper"], path ["net", "http", "get"], .lam "y" (.var "y")]
+    let k ← rand 4
+    let src ← if k == 0 then pure (.var dynName)
+      else if k == 1 then pure (.app (.var dynName) (.str "canary.txt"))
+      else genExpr (depth - 1) (dynName :: dynName :: names)
+    pure ⟨"dyn", cfg, src, lib, dv⟩
   else
     let (cfg, names) ← genOuterCfg
     if m < 8 then
-      pure ⟨"evaluator", cfg, ← genExpr depth names, lib⟩
+      pure ⟨"evaluator", cfg, ← genExpr depth names, lib, .tnil⟩
     else
       -- the sandbox returns a function; the program calls it at top level
-      pure ⟨"outside", cfg, .lam "u" (← genExpr (depth - 1) ("u" :: names)), lib⟩
+      pure ⟨"outside", cfg, .lam "u" (← genExpr (depth - 1) ("u" :: names)), lib, .tnil⟩
 
 def genCase (seed idx : Nat) (big : Bool) : Case := Id.run do
   -- programs whose outcome the model does not determine (or that would call the network) are re-drawn
@@ -283,12 +313,12 @@ def genCase (seed idx : Nat) (big : Bool) : Case := Id.run do
     let (p, _) := (genProg big).run (seedOf seed (1800000 + idx * 8 + attempt))
     let (c, bad) := mkCase s!"C18-{idx}" p.mode p
     if !bad then return c
-  let (c, _) := mkCase s!"C18-{idx}" "fallback" ⟨"evaluator", .tnil, .num 1, .num 1⟩
+  let (c, _) := mkCase s!"C18-{idx}" "fallback" ⟨"evaluator", .tnil, .num 1, .num 1, .tnil⟩
   return c
 
 /-- witnesses of the repaired defects and the tests of syntax/std_eval_test.go; always run first -/
 def corpus : List Case :=
-  let ev (cfg src : Ast) : Prog := ⟨"evaluator", cfg, src, osFile⟩
+  let ev (cfg src : Ast) : Prog := ⟨"evaluator", cfg, src, osFile, .tnil⟩
   let progs : List Prog := [
     ev .tnil (evalValue osFile),                                   -- //eval.eval("//eval.value(\"//os.file\")")
     ev .tnil (.mac (.lam "a" osFile)),                             -- macro evaluated at parse time
@@ -304,19 +334,23 @@ def corpus : List Case :=
       (.app (path ["str", "lower"]) (.str "CAT")),
     ev (tuple [("scope", tuple [("f", .lam "d" (.var "d"))])]) (.app (.var "f") (.num 1)),
     ev .tnil (.lam "u" (evalValue osFile)),                        -- a closure that tries again when called
-    ⟨"outside", .tnil, .lam "u" (evalValue osFile), osFile⟩,       -- … and is called outside the sandbox
-    ⟨"outside", .tnil, .lam "u" (evalEval (.app osFile (.var "u"))), osFile⟩,
+    ⟨"outside", .tnil, .lam "u" (evalValue osFile), osFile, .tnil⟩,       -- … and is called outside the sandbox
+    ⟨"outside", .tnil, .lam "u" (evalEval (.app osFile (.var "u"))), osFile, .tnil⟩,
     ev .tnil (evalEval (evalValue (.mac (.lam "a" osFile)))),
     ev .tnil (evaluator (tuple [("stdlib", tuple [("os", .pkg "os")])]) osFile),
     ev .tnil (.pkg "eval"),
-    ⟨"direct", .tnil, evalValue osFile, osFile⟩,
-    ⟨"direct", .tnil, .mac (.lam "a" osFile), osFile⟩,
-    ⟨"direct", .tnil, .imp "lib.arrai", osFile⟩,
-    ⟨"direct", .tnil, .imp "lib.arrai", .lam "u" osFile⟩,
-    ⟨"direct", .tnil, .app (.imp "lib.arrai") (.num 0), .lam "u" osFile⟩,
-    ⟨"direct", .tnil, .imp "canary.txt", osFile⟩,
-    ⟨"direct", .tnil, path ["deprecated", "exec"], osFile⟩,
-    ⟨"direct", .tnil, .pkg "std", osFile⟩ ]
+    ⟨"direct", .tnil, evalValue osFile, osFile, .tnil⟩,
+    ⟨"direct", .tnil, .mac (.lam "a" osFile), osFile, .tnil⟩,
+    ⟨"direct", .tnil, .imp "lib.arrai", osFile, .tnil⟩,
+    ⟨"direct", .tnil, .imp "lib.arrai", .lam "u" osFile, .tnil⟩,
+    ⟨"direct", .tnil, .app (.imp "lib.arrai") (.num 0), .lam "u" osFile, .tnil⟩,
+    ⟨"direct", .tnil, .imp "canary.txt", osFile, .tnil⟩,
+    ⟨"direct", .tnil, path ["deprecated", "exec"], osFile, .tnil⟩,
+    ⟨"direct", .tnil, .pkg "std", osFile, .tnil⟩,
+    -- KF-dynvar-leak: (\@{x} //eval.evaluator(()).eval("@{x}('canary.txt')"))(//os.file)
+    ⟨"dyn", .tnil, .app (.var dynName) (.str "canary.txt"), osFile, osFile⟩,
+    ⟨"dyn", .tnil, .var dynName, osFile, osFile⟩,
+    ⟨"dyn", .tnil, .num 1, osFile, osFile⟩ ]
   (progs.zipIdx.map fun (p, i) => (mkCase s!"C18-corpus-{i}" ("corpus/" ++ p.mode) p).1)
 
 def gen (seed n : Nat) (thorough : Bool) : List Case := Id.run do
